@@ -117,12 +117,13 @@ pipes:
 		wrongKind := pi%4 == 3
 		syncOpens := pi%3 == 1
 		big := pi%2 == 1
+		fewIDs := pi%5 == 2 // a peer that reuses request ids while earlier requests with the same id are still in flight
 		for _, k := range []c02Cfg{{true, false, 0}, {true, true, 0}, {false, false, 0}, {false, true, 0}, {true, true, 262144}, {false, true, 262144}} {
 			if k.maxTx != 0 && !big {
 				continue
 			}
 			gen := func() *pgProgram {
-				return pgGenProgram(rand.New(rand.NewSource(seed)), pgGenOpt{reqServer: k.reqServer, wrongKind: wrongKind, syncOpens: syncOpens, depth: depth, maxTx: k.maxTx, bigIO: big})
+				return pgGenProgram(rand.New(rand.NewSource(seed)), pgGenOpt{reqServer: k.reqServer, wrongKind: wrongKind, syncOpens: syncOpens, depth: depth, maxTx: k.maxTx, bigIO: big, fewIDs: fewIDs})
 			}
 			scheds := 1
 			for si := 0; si < scheds; si++ {
@@ -145,7 +146,10 @@ pipes:
 					}
 				}
 				n := c.Case("pipe", kvs("srv", k.name()), kvb("alloc", k.alloc), kvx("maxtx", uint64(k.maxTx)), kvx("seed", uint64(seed)), kvi("depth", depth),
-					kvi("sched", si), kvb("wrongkind", wrongKind), kvb("syncopens", syncOpens), kvb("big", big))
+					kvi("sched", si), kvb("wrongkind", wrongKind), kvb("syncopens", syncOpens), kvb("big", big), kvb("fewids", fewIDs))
+				if fewIDs {
+					c.Stat("programs_reusing_request_ids")
+				}
 				ok, why := pgCheckStream(prog.reqs, res.resps)
 				if ok && !down {
 					ok, why = false, "server-hang: Serve did not return within 5 s of closing the connection"
